@@ -904,8 +904,74 @@ impl Prop for C13 {
         match guarded(obs, sp_what, || {
             spelling_correction_f1(&c.input, &c.pred, &c.target, beta, seq_avg, gr)
         }) {
-            Some(Ok(((f, p, r), _infos))) => {
+            Some(Ok(((f, p, r), infos))) => {
                 note_sp = json!([f, p, r]);
+                if std::env::var("TUVERIF_DEBUG").is_ok() {
+                    eprintln!("spelling_correction_f1 -> ({f},{p},{r}) infos {infos:?} cleaned input {cl_in:?} target {cl_tg:?}");
+                }
+                // the statement's calibration clause read literally, for every input (also where
+                // the value oracle does not apply): a prediction that IS the target string has no
+                // false positives and no false negatives. Class-specific signatures, so that a
+                // finding about one input class cannot hide another.
+                // With FP = FN = 0 every sequence is (1,1,1) or, without any true positive, the
+                // all-zero / (1,1,1) convention: micro values are all 1 or all 0, sequence averages
+                // have p = r = f. (The info list is not used: it is Empty in the cases found.)
+                if n > 0 && (0..n).all(|i| c.pred[i] == c.target[i]) {
+                    obs.tag("spelling-pred-is-target-string");
+                    let ok = if seq_avg {
+                        (p - r).abs() <= EPS && (p - f).abs() <= EPS
+                    } else {
+                        close3((f, p, r), [1.0, 1.0, 1.0]) || close3((f, p, r), [0.0, 0.0, 0.0])
+                    };
+                    if !ok {
+                        let mixed = (0..n).any(|i| {
+                            [&cl_in[i], &cl_tg[i], &c.input[i], &c.target[i]].iter().any(|s| has_mixed_cluster(s))
+                        });
+                        let sig = if mixed {
+                            "spelling_f1/pred-is-target-has-fp-or-fn/grapheme-cluster-mixes-whitespace"
+                        } else if nfkc_ws {
+                            "spelling_f1/pred-is-target-has-fp-or-fn/nfkc-introduces-whitespace"
+                        } else if !stable {
+                            "spelling_f1/pred-is-target-has-fp-or-fn/nfkc-unstable"
+                        } else {
+                            "spelling_f1/pred-is-target-has-fp-or-fn"
+                        };
+                        obs.fail(
+                            sig,
+                            format!(
+                                "prediction == target (identical strings) but (f,p,r)=({f},{p},{r}) implies false positives or negatives; infos {infos:?}; cleaned input {cl_in:?} for {cfg}"
+                            ),
+                        );
+                    }
+                }
+                // likewise: a prediction that IS the input string has no true positive, so every
+                // sequence is all-zero or the (1,1,1) convention
+                if n > 0 && (0..n).all(|i| c.pred[i] == c.input[i]) && !(0..n).all(|i| c.pred[i] == c.target[i]) {
+                    obs.tag("spelling-pred-is-input-string");
+                    let ok = if seq_avg {
+                        (p - r).abs() <= EPS && (p - f).abs() <= EPS
+                    } else {
+                        close3((f, p, r), [1.0, 1.0, 1.0]) || close3((f, p, r), [0.0, 0.0, 0.0])
+                    };
+                    if !ok {
+                        let mixed = (0..n).any(|i| {
+                            [&cl_in[i], &cl_tg[i], &c.input[i], &c.target[i]].iter().any(|s| has_mixed_cluster(s))
+                        });
+                        let sig = if mixed {
+                            "spelling_f1/pred-is-input-has-tp/grapheme-cluster-mixes-whitespace"
+                        } else if nfkc_ws {
+                            "spelling_f1/pred-is-input-has-tp/nfkc-introduces-whitespace"
+                        } else if !stable {
+                            "spelling_f1/pred-is-input-has-tp/nfkc-unstable"
+                        } else {
+                            "spelling_f1/pred-is-input-has-tp"
+                        };
+                        obs.fail(
+                            sig,
+                            format!("prediction == input (identical strings) but (f,p,r)=({f},{p},{r}) implies a true positive; cleaned input {cl_in:?} target {cl_tg:?} for {cfg}"),
+                        );
+                    }
+                }
                 let ranged = obs.check(in_unit(f) && in_unit(p) && in_unit(r), "spelling_f1/range", || {
                     format!("(f,p,r)=({f},{p},{r}) for {cfg}")
                 });
